@@ -519,7 +519,10 @@ class _GenerateRenderMethod:
         if has_loop:
             self.printer.writeline("loop = __M_loop = runtime.LoopStack()")
 
-        for ident in to_write:
+        # a fixed order, names taken from the context and namespaces first:
+        # the argument defaults of a def written out below are evaluated
+        # right there and may read them
+        for ident in sorted(to_write, key=lambda i: (i in comp_idents, i)):
             if ident in comp_idents:
                 comp = comp_idents[ident]
                 if comp.is_block:
